@@ -242,8 +242,48 @@ fn sweep(prop: &str, rep: &mut Report) {
     }
 }
 
+/// builder call patterns the abstract space cannot express (setters used without their companion)
+fn builder_corner_cases(rep: &mut Report) {
+    use mqtt_protocol_core::mqtt::packet as pk;
+    let r = guarded(|| {
+        let mut out: Vec<(String, String)> = vec![];
+        // will properties without a will message
+        let wp = vec![pk::Property::WillDelayInterval(pk::WillDelayInterval::new(5).unwrap())];
+        if let Ok(c) = pk::v5_0::Connect::builder().client_id("c").unwrap().will_props(wp).build() {
+            let bytes = c.to_continuous_buffer();
+            if c.size() != bytes.len() {
+                out.push(("will-props-without-will".into(), format!("size() {} != serialisation {}", c.size(), bytes.len())));
+            }
+            if let Framed::Frame { body, used, .. } = rc::frame_one(&bytes) {
+                if used != bytes.len() {
+                    out.push(("will-props-without-will".into(), "Remaining Length does not frame the packet".into()));
+                }
+                match pk::v5_0::Connect::parse(&body) {
+                    Ok((p2, n)) => {
+                        if p2 != c || n != body.len() {
+                            out.push(("will-props-without-will".into(), format!("CONNECT built with will_props() but without will_message(): parse(serialise(p)) != p (the will properties are kept in the packet but not serialised); wire {}", hex_trunc(&bytes, 32))));
+                        }
+                    }
+                    Err(e) => out.push(("will-props-without-will".into(), format!("parser rejects the built packet: {e:?}"))),
+                }
+            }
+        }
+        out
+    });
+    rep.count("c02.builder-corner-cases", 1);
+    match r {
+        Ok(v) => {
+            for (class, d) in v {
+                rep.violation(Violation { rule: "c02.roundtrip".into(), sig: format!("c02.roundtrip|CONNECT|v5|{class}"), detail: d, config: "codec builder corner cases".into(), history: vec![json!(class)] });
+            }
+        }
+        Err(m) => rep.violation(Violation { rule: "c02.panic".into(), sig: format!("c02.panic|corner|{}", crate::util::panic_sig(&m)), detail: m, config: "codec builder corner cases".into(), history: vec![] }),
+    }
+}
+
 pub fn c02(rep: &mut Report) {
     sweep("c02", rep);
+    builder_corner_cases(rep);
     rep.assume("every setter of every builder is used at most once per packet; long-length values (>= 16383) are applied to at most two fields at a time; SSO feature builds are exercised by the thorough wrapper through separate harness builds");
 }
 
